@@ -33,8 +33,10 @@ def _log(opt_log, names):
     return out
 
 
-def one_run(tbl, sched, J=1, seed=0):
-    """tbl[k][c][j] (j = 0..T-1), sched = [(type, dur, thin), ...]"""
+def one_run(tbl, sched, J=1, seed=0, continue_after_read=False, minimize=False):
+    """tbl[k][c][j] (j = 0..T-1), sched = [(type, dur, thin), ...]
+    continue_after_read: the results object is obtained and its posterior read before the last epoch is appended and
+    sampled; everything is then read from that *same* object.  minimize: minimize_transition_infos."""
     import jax.numpy as jnp
 
     import liesel.goose as gs
@@ -44,7 +46,7 @@ def one_run(tbl, sched, J=1, seed=0):
     assert T == sum(d for _, d, _ in sched)
     names = [f"kernel_{k:02d}" for k in range(K)]
     hdr = {"K": K, "C": C, "sched": [{"type": t, "dur": d, "thin": th} for t, d, th in sched],
-           "tbl": tbl, "names": names, "books": [book_of(k + 1) for k in range(K)], "J": J}
+           "continue_after_read": continue_after_read, "minimize": minimize, "tbl": tbl, "names": names, "books": [book_of(k + 1) for k in range(K)], "J": J}
     ev = {"ev": "results", "crash": "", "log_all": [], "log_post_none": True, "log_post": [],
           "has_summary": False, "summary": [], "df_per_chain": [], "df_merged": [], "sample_info": {},
           "stored_post": -1, "dig_before": {}, "dig_pickle": {}, "dig_post": {}, "dig_arviz_post": {},
@@ -55,10 +57,19 @@ def one_run(tbl, sched, J=1, seed=0):
                   for k in range(K)]
         cfgs = [E.C(0, 1)] if hasattr(E, "C") else None
         cfgs = [{"type": 0, "dur": 1, "thin": 1}] + hdr["sched"]
-        eng, kernels, keys = E.build_engine(K, set(), C, seed, J, cfgs, error_tables=tables, cap=T + 4 * len(sched) + 8,
-                                            error_books=True)
+        late = continue_after_read and len(sched) >= 2
+        eng, kernels, keys = E.build_engine(K, set(), C, seed, J, cfgs[:-1] if late else cfgs, error_tables=tables,
+                                            cap=T + 4 * len(sched) + 8, error_books=True, minimize_infos=minimize)
         eng.sample_all_epochs()
         res = eng.get_results()
+        if late:
+            try:
+                res.get_posterior_samples()
+            except Exception:  # noqa: BLE001  (no posterior epoch yet)
+                pass
+            res.get_samples()
+            eng.append_epoch(E.cfg_of(cfgs[-1]))
+            eng.sample_next_epoch()
         ev["log_all"] = _log(res.get_error_log(False).unwrap(), names)
         lp = res.get_error_log(True)
         ev["log_post_none"] = bool(lp.is_none())
@@ -143,12 +154,15 @@ def jobs(rng, quick=True):
                             elif pat == "single_chain":
                                 v = rng.choice([0, 1, 2, -1]) if c == C - 1 else 0
                             else:
-                                v = rng.choice([0, 0, 1, 2, -1])
+                                v = rng.choice([0, 0, 1, 2, -1, 200])
                             tbl[k][c][j] = v
                 import math
                 g = 0
                 for _, d, _ in sched:
                     g = math.gcd(g, d)
-                out.append(dict(tbl=tbl, sched=sched, J=rng.choice([1, g]), seed=n))
+                out.append(dict(tbl=tbl, sched=sched, J=rng.choice([1, g]), seed=n,
+                                continue_after_read=(pat in ("each_epoch", "random", "posterior_only")
+                                                     and sum(1 for t, _, _ in sched if t == 4) >= 2),
+                                minimize=(pat == "random")))
                 n += 1
     return out
